@@ -141,12 +141,50 @@ let emit (id : string) (_stream : string)
   let zero = { text = []; opts = Options.zero_options; sub = false; a = Z0; b = Z0; str = Some []; chars = Z0; lines = Z0 } in
   let ipool = ref (Array.of_list (Stdlib.List.map (fun t -> { zero with text = t; str = Some t }) pool0)) in
   let parent = ref (Array.make (Stdlib.List.length pool0) (-1)) in
+  let prev = ref None in
+  let outs = ref [] in
+  let first_obs = Hashtbl.create 16 in
   let rec go k trace recvs impl raw =
     match trace, recvs, impl, raw with
     | (me, op, mr) :: trace', recv :: recvs', io :: impl', tok :: raw' ->
       if recv < Array.length !ipool then begin
         let ir = (!ipool).(recv) in
         let iout = (match io with Some i -> Some (of_iobs i) | None -> None) in
+        (* relational checks over two consecutive steps *)
+        (match !prev, iout with
+         | Some (pop, pidx, (prevrecv : eobs), Some (pout : eobs)), Some o when pidx = recv ->
+           (match pop, op with
+            | Hist.OWrap (w, oo), Hist.OWrap _ when pop = op ->
+              let d = Options.with_defaults cls (match oo with Some x -> x | None -> prevrecv.opts) in
+              let g = Layout.guard_C07 cls prevrecv.text d w && Layout.guard_C06 cls prevrecv.text d.Options.o_linesep w in
+              Printf.printf "%s V C06 %d %s %s idem\n" id k (b2s g) (b2s (o.text = pout.text))
+            | Hist.OCollapse oo, Hist.OCollapse _ when pop = op ->
+              let d = Options.with_defaults cls (match oo with Some x -> x | None -> prevrecv.opts) in
+              Printf.printf "%s V C07 %d %s %s idem\n" id k (b2s (Layout.guard_C07 cls prevrecv.text d Z0)) (b2s (o.text = pout.text))
+            | Hist.OInsert (_, x), Hist.ODelete _ ->
+              let cl t = Segment.clusters cls (Utf8.decode t) in
+              let before = Stdlib.List.length (cl prevrecv.text) in
+              let g = Utf8.valid_utf8 prevrecv.text && Utf8.valid_utf8 x
+                      && Stdlib.List.length (cl pout.text) = before + Stdlib.List.length (cl x)
+                      && (* the inserted clusters sit unmerged where they were put *)
+                      (let ins = cl x in let all = cl pout.text in
+                       let rec sub a b = match a, b with [], _ -> true | x :: a', y :: b' -> x = y && sub a' b' | _ -> false in
+                       let rec find l = sub ins l || (match l with [] -> false | _ :: l' -> find l') in find all) in
+              Printf.printf "%s V C09 %d %s %s roundtrip\n" id k (b2s g) (b2s (o.text = prevrecv.text))
+            | _ -> ())
+         | _ -> ());
+        prev := Some (op, Array.length !ipool, ir, iout);
+        outs := iout :: !outs;
+        (* C08: every Editor obtained so far still reports what it reported when it was obtained *)
+        (match String.split_on_char ';' tok with
+         | _ :: (_ :: _ as all) ->
+           let ok = ref true in
+           Stdlib.List.iteri (fun j t ->
+               match Hashtbl.find_opt first_obs j with
+               | Some t0 -> if t0 <> t then ok := false
+               | None -> Hashtbl.add first_obs j t) all;
+           Printf.printf "%s V C08 %d 1 %s reobserve\n" id k (b2s !ok)
+         | _ -> ());
         let mout = (match mr with Res.Ok e -> Some (of_model e) | _ -> None) in
         (* C18: no panic, no timeout *)
         Printf.printf "%s V C18 %d 1 %s %s\n" id k (b2s (iout <> None)) (b2s (mout <> None));
@@ -199,4 +237,38 @@ let emit (id : string) (_stream : string)
       end;
       go (k + 1) trace' recvs' impl' raw'
     | _ -> () in
-  go 0 trace recvs impl impl_raw
+  go 0 trace recvs impl impl_raw;
+  let outs = Array.of_list (Stdlib.List.rev !outs) in
+  let text k = if k < Array.length outs then (match outs.(k) with Some o -> Some o.text | None -> None) else None in
+  (* C17: unset options equal their defaults; XOpts(o) equals WithOptions(o).X; WithDefaults is idempotent *)
+  if _stream = "opts" && Array.length outs >= 7 then begin
+    let same = text 0 <> None && text 0 = text 2 && text 0 = text 3 && text 0 = text 4 in
+    Printf.printf "%s V C17 0 1 %s variants\n" id (b2s same);
+    (match outs.(5), outs.(6) with
+     | Some a, Some b ->
+       let g = Common.plain_cfg cls a.opts.Options.o_charset in
+       let three = Stdlib.List.length (Segment.clusters cls (Utf8.decode a.opts.Options.o_charset)) = 3 in
+       Printf.printf "%s V C17 5 %s %s idempotent\n" id (b2s g) (b2s (Options.options_eqb a.opts b.opts && three))
+     | _ -> Printf.printf "%s V C17 5 1 0 idempotent\n" id)
+  end;
+  (* C03: the operation commutes with a cluster-for-cluster substitution *)
+  if _stream = "subst" && Array.length outs >= 2 then begin
+    match pool0 with
+    | [_; _; m] ->
+      let rec split_sp cur acc = function
+        | [] -> Stdlib.List.rev (Stdlib.List.rev cur :: acc)
+        | c :: rest -> if c = z_of_int 32 then split_sp [] (Stdlib.List.rev cur :: acc) rest else split_sp (c :: cur) acc rest in
+      let toks = Stdlib.List.map Utf8.decode (split_sp [] [] m) in
+      let rec pairs = function a :: b :: rest -> (a, b) :: pairs rest | _ -> [] in
+      let rho = pairs toks in
+      let subst t =
+        Utf8.encode (Stdlib.List.concat (Stdlib.List.map (fun c -> match Stdlib.List.assoc_opt c rho with Some d -> d | None -> c)
+                                           (Segment.clusters cls (Utf8.decode t)))) in
+      (match outs.(0), outs.(1) with
+       | Some a, Some b ->
+         Printf.printf "%s V C03 1 1 %s subst\n" id
+           (b2s (subst a.text = b.text && a.chars = b.chars && a.lines = b.lines && a.sub = b.sub))
+       | None, None -> Printf.printf "%s V C03 1 1 1 subst\n" id
+       | _ -> Printf.printf "%s V C03 1 1 0 subst\n" id)
+    | _ -> ()
+  end
